@@ -259,6 +259,56 @@ func c18Server(r *vf.Run, t *testing.T, id string, rng *rand.Rand) {
 				checkQ(fmt.Sprintf("after a request following SETTINGS #%d", k+1))
 			}
 		}
+		// a response header block of exactly two or three full frames: the boundary where "the rest fits in one more frame"
+		// and "nothing is left" meet. The filler is made of octets whose Huffman code is 8 bits long, so one more character
+		// is one more octet of block, and the length is corrected from what the previous attempt produced.
+		if !failed && rng.Intn(3) == 0 {
+			frameSize := int(ps.frame)
+			if pendingLower > 0 {
+				frameSize = int(pendingLower)
+			}
+			mult := 2 + rng.Intn(2)
+			target := mult * frameSize
+			if target <= 200000 {
+				fill := target - 150
+				for attempt := 0; attempt < 6 && !failed && fill > 0; attempt++ {
+					tag := fmt.Sprintf("%s.%d", id, next)
+					sid := next
+					e.H.SetPlan(tag, &rt.RespPlan{Status: 200, Body: []byte("after the block"), Fields: [][2]string{{"x-exact", strings.Repeat("X", fill)}}})
+					e.P.Write(append(simpleGet(e.P, sid, tag), rt.WindowUpdate(sid, 1<<20)...))
+					next += 2
+					rt.Wait()
+					got := 0
+					for _, f := range rt.FramesFor(e.P.Frames(), sid) {
+						if f.Type == wire.THeaders || f.Type == wire.TContinuation {
+							got += int(f.Len)
+						}
+					}
+					checkQ(fmt.Sprintf("after a response whose header block has %d octets (aiming at %d x %d)", got, mult, frameSize))
+					if got == target {
+						r.Inc("response_header_blocks_of_exactly_k_full_frames", 1)
+						// one more, to see that the connection is still in step after it
+						tag2 := fmt.Sprintf("%s.%d", id, next)
+						e.P.Write(simpleGet(e.P, next, tag2))
+						sid2 := next
+						next += 2
+						rt.Wait()
+						done := false
+						for _, f := range rt.FramesFor(e.P.Frames(), sid2) {
+							done = done || f.EndStream
+						}
+						if !done && !failed {
+							fail("connection-out-of-step", fmt.Sprintf("after a response header block of exactly %d x %d octets on stream %d the next request (stream %d) got no complete answer; frames on it:%s", mult, frameSize, sid, sid2, frameSummary(rt.FramesFor(e.P.Frames(), sid2))))
+						}
+						break
+					}
+					if got == 0 {
+						break
+					}
+					fill += target - got
+				}
+			}
+		}
 		// the endpoint's own advertisement
 		if !failed {
 			own := e.ServerSettings
